@@ -4,6 +4,8 @@
    E = EFuel, m1 = m2: more fuel never changes a result.  E = EDev, m1 = Chk: a guard run without deviation is
    the run of the Go model and of the reference evaluator. *)
 From C01 Require Import Model.
+(* apply_fn is kept folded by simpl: its lemma apply_fn_sim is used instead *)
+Arguments apply_fn : simpl never.
 
 Section Sim.
 Variables m1 m2 : mode.
@@ -16,7 +18,6 @@ Record sim_modes : Prop := {
   sm_store : forall v, goodo (store_red m1 v) -> store_red m2 v = store_red m1 v;
   sm_truthy : forall v, goodo (truthy m1 v) -> truthy m2 v = truthy m1 v;
   sm_or : forall v, goodo (or_step m1 v) -> or_step m2 v = or_step m1 v;
-  sm_short : goodo (short_args m1) -> short_args m2 = short_args m1;
   sm_loc : forall fs sc x, goodo (locate_m m1 fs sc x) -> locate_m m2 fs sc x = locate_m m1 fs sc x
 }.
 Hypothesis SM : sim_modes.
@@ -66,7 +67,6 @@ Ltac rw_lead :=
   | G : goodo (store_red m1 ?v) |- _ => rewrite (sm_store SM _ G); clear G
   | G : goodo (truthy m1 ?v) |- _ => rewrite (sm_truthy SM _ G); clear G
   | G : goodo (or_step m1 ?v) |- _ => rewrite (sm_or SM _ G); clear G
-  | G : goodo (short_args m1) |- _ => rewrite (sm_short SM G); clear G
   | G : goodo (locate_m m1 ?fs ?sc ?x) |- _ => rewrite (sm_loc SM _ _ _ G); clear G
   end.
 Ltac case_lead :=
@@ -171,13 +171,21 @@ Proof.
   step noop. try (step noop). step rw_assign. apply IH; assumption.
 Qed.
 
+Lemma ev_defaults_sim : forall os st sc f, good (ev_defaults m1 ev1 st sc f os) -> ev_defaults m2 ev2 st sc f os = ev_defaults m1 ev1 st sc f os.
+Proof.
+  induction os as [|[x e] os IH]; intros st sc f H; simpl in *; [reflexivity|].
+  destruct (fr_index (get_frame st f) x); [apply IH; assumption|].
+  step noop. try (step noop). apply IH; assumption.
+Qed.
 Lemma apply_fn_sim : forall st c args, good (apply_fn m1 ev1 st c args) -> apply_fn m2 ev2 st c args = apply_fn m1 ev1 st c args.
 Proof.
-  intros st [ps body csc|p] args H; simpl in *; [|reflexivity].
-  destruct (List.length ps <? List.length args); [reflexivity|].
-  destruct (List.length args <? List.length ps).
-  - step noop. apply ev_seq_sim; assumption.
-  - simpl in *. apply ev_seq_sim; assumption.
+  intros st [ps os body csc|p] args H; [|reflexivity]. unfold apply_fn in *.
+  destruct (List.length ps + List.length os <? List.length args); [reflexivity|].
+  destruct (List.length args <? List.length ps); [reflexivity|].
+  destruct (alloc st (mk_frame (ps ++ map fst os) args)) as [f st1].
+  destruct (drop os (List.length args - List.length ps)) as [|d ds].
+  - apply ev_seq_sim; assumption.
+  - split_good. rewrite (ev_defaults_sim _ _ _ _ G). case_lead. apply ev_seq_sim; assumption.
 Qed.
 Ltac rw_apply := idtac; match goal with G : good (apply_fn m1 ev1 _ _ _) |- _ => rewrite (apply_fn_sim _ _ _ G); clear G end.
 
@@ -259,7 +267,6 @@ Proof.
     destruct v; try discriminate; reflexivity.
   - reflexivity.
   - reflexivity.
-  - destruct m; simpl; congruence.
   - intros fs sc x; destruct m; simpl; try reflexivity.
     + destruct (loc_eqb (locate false fs sc x) (locate true fs sc x)) eqn:Hl; [|congruence].
       intros _. f_equal.
